@@ -408,4 +408,53 @@ theorem generic_agrees_with_core (kind : CrashCore.Kind) (k : Nat) (hk : k < (Cr
     rcases this with e | e | e <;> subst e <;> decide
 
 
+/-! ### the two other calls with an open mechanism, for EVERY store (not only the fresh stores of `Model.CrashSeq`) -/
+
+/-- the regenerated sequences of accept_welcome and of a leave proposal that the receiving admin auto-commits -/
+theorem accept_and_autocommit_sequences_match_source :
+    CrashCore.expand 14 ((CrashCore.sourcePaths 14).headD []) = [.joinMls, .acceptWelcome, .activate, .saveRelays] ∧
+    CrashCore.expand 5 ((CrashCore.sourcePaths 5).headD []) = [.saveSecret, .consume, .storeProposal, .setPending, .saveSecret, .savePm 1] := by
+  decide
+
+/-- **accept_prefix_all_stores.**  `accept_welcome` on ANY store whose welcome is not yet Accepted: a death is
+    recovered before the welcome record is turned Accepted (OpenMLS's `into_group` may have stored the group: the
+    retry replaces it) and after the group record is Active; in between — welcome Accepted, group record still
+    Pending — the retry is refused ("already accepted") and the group never becomes Active: `torn-accept`. -/
+theorem accept_prefix_all_stores (d : CrashCore.Db) (h : d.accepted = false) (ha : d.active = false) :
+    let ws : List CrashCore.W := [.joinMls, .acceptWelcome, .activate, .saveRelays]
+    CrashSeq.recoveredG .accept ws 0 d = true ∧ CrashSeq.recoveredG .accept ws 1 d = true ∧
+    CrashSeq.recoveredG .accept ws 2 d = false ∧ CrashSeq.recoveredG .accept ws 3 d = true := by
+  refine ⟨?_, ?_, ?_, ?_⟩ <;>
+    simp [CrashSeq.recoveredG, CrashSeq.crashAtG, CrashSeq.retryG, CrashSeq.obsG, CrashCore.run, CrashCore.applyW, h, ha]
+
+/-- **autocommit_prefix_all_stores.**  A leave proposal that the receiving admin auto-commits, on ANY store that
+    has not seen the event: recovered before OpenMLS decrypts; after the decryption and before the pending commit
+    is stored the retry is refused and the proposal (or its commit) is lost — `decrypt-consumed-retry-refused`;
+    once the commit is stored only the dedup record of the event differs. -/
+theorem autocommit_prefix_all_stores (d : CrashCore.Db) (h1 : d.pm = 0) (h2 : d.consumed = false) (h3 : d.pending = false) :
+    let ws : List CrashCore.W := [.saveSecret, .consume, .storeProposal, .setPending, .saveSecret, .savePm 1]
+    CrashSeq.recoveredG .message ws 0 d = true ∧ CrashSeq.recoveredG .message ws 1 d = true ∧
+    CrashSeq.recoveredG .message ws 2 d = false ∧ CrashSeq.recoveredG .message ws 3 d = false ∧
+    CrashSeq.recoveredG .message ws 4 d = true ∧ CrashSeq.recoveredG .message ws 5 d = true := by
+  refine ⟨?_, ?_, ?_, ?_, ?_, ?_⟩
+  · simp [CrashSeq.recoveredG, CrashSeq.crashAtG, CrashSeq.retryG, CrashSeq.obsG, CrashCore.run, h1, h2]
+  · by_cases hm : d.mlsE ∈ d.secrets <;>
+      simp [CrashSeq.recoveredG, CrashSeq.crashAtG, CrashSeq.retryG, CrashSeq.obsG, CrashCore.run, CrashCore.applyW, h1, h2, hm]
+  · by_cases hm : d.mlsE ∈ d.secrets <;>
+      simp [CrashSeq.recoveredG, CrashSeq.crashAtG, CrashSeq.retryG, CrashSeq.obsG, CrashCore.run, CrashCore.applyW, h1, h2, h3, hm]
+  · by_cases hm : d.mlsE ∈ d.secrets <;>
+      simp [CrashSeq.recoveredG, CrashSeq.crashAtG, CrashSeq.retryG, CrashSeq.obsG, CrashCore.run, CrashCore.applyW, h1, h2, h3, hm]
+  · by_cases hm : d.mlsE ∈ d.secrets <;>
+      simp [CrashSeq.recoveredG, CrashSeq.crashAtG, CrashSeq.retryG, CrashSeq.obsG, CrashCore.run, CrashCore.applyW, h1, h2, h3, hm]
+  · by_cases hm : d.mlsE ∈ d.secrets <;>
+      simp [CrashSeq.recoveredG, CrashSeq.crashAtG, CrashSeq.retryG, CrashSeq.obsG, CrashCore.run, CrashCore.applyW, h1, h2, h3, hm]
+
+
+/-- non-vacuity: the hypotheses of the three statements above hold of concrete stores and of the table -/
+example : (CrashSeq.freshStore 14 false).accepted = false ∧ (CrashSeq.freshStore 14 false).active = false ∧
+    (CrashSeq.freshStore 5 true).pm = 0 ∧ (CrashSeq.freshStore 5 true).consumed = false ∧ (CrashSeq.freshStore 5 true).pending = false ∧
+    (1, [[1, 40, 15, 41, 1, 17, 22]]) ∈ Generated.writeSeq ∧ CrashSeq.modelled 1 = true ∧
+    CrashSeq.freshStore 1 true ∈ CrashSeq.freshStores 1 := by decide
+
+
 end MdkVerif.Props.C12
